@@ -13,7 +13,7 @@ import (
 )
 
 func usage() {
-	fmt.Fprintln(os.Stderr, "usage: verif check <property-id> [quick|thorough] | verif list")
+	fmt.Fprintln(os.Stderr, "usage: verif check <property-id> [quick|thorough] | verif replay <file> | verif list")
 	os.Exit(2)
 }
 
@@ -35,6 +35,21 @@ func main() {
 		for _, id := range ids {
 			fmt.Println(id)
 		}
+	case "replay":
+		if len(os.Args) < 3 {
+			usage()
+		}
+		found, err := eng.Replay(os.Args[2])
+		drv.Cleanup()
+		if err != nil {
+			fmt.Fprintln(os.Stderr, "replay:", err)
+			os.Exit(2)
+		}
+		if found {
+			fmt.Println("replay: the finding is reproduced")
+			os.Exit(1)
+		}
+		fmt.Println("replay: no finding on the current tree")
 	case "racepass":
 		// free-running execution of the C07 scenario bodies; meaningful in the binary built with -race
 		rounds := 30
